@@ -403,13 +403,10 @@ impl Check for C01Check {
                 self.judge_text(&src, &[0, 1], ctx);
             }
             (_, Input::Text(s)) => {
-                // hand-written regression: text is parsed by the reference parser? not available for raw text: run as smoke only
-                ctx.render(|| format!("{:?}", s));
-                for imp in Impl::BOTH {
-                    if let Got::Panic(stage, loc) = run_real(imp, s, None, &V::Unit, 20_000) {
-                        ctx.fail(format!("{}-panic@{}", stage, loc), format!("{:?}", s));
-                    }
-                }
+                // a program given as text (hand-written regression, or the coverage-guided stage): read by the reference
+                // parser and judged like a generated one; texts the reference does not define are counted, not judged
+                ctx.class("text");
+                self.judge_text(s, &[0, 1], ctx);
             }
             _ => {}
         }
